@@ -301,6 +301,12 @@ func c14(r *core.Run) {
 		hostDesc = append(hostDesc, hp+"="+st.hosts[hp].String())
 	}
 	r.Notef("host nodes: %s", strings.Join(hostDesc, " "))
+	// scale: one run in twenty has Specs with 30-70 devices and requests of 20-80 names
+	big := src.Bool(1, 20)
+	if big {
+		r.Knob("big_specs_and_requests", true)
+		r.Probe("big_specs_and_requests")
+	}
 	// Spec files with device nodes at device level and sometimes at Spec level
 	src.Begin("specs")
 	nf := 1 + src.Intn(3)
@@ -334,6 +340,9 @@ func c14(r *core.Run) {
 			s.Annotations = map[string]string{"vendor.example/spec": fmt.Sprintf("f%d", i)}
 		}
 		nd := 1 + src.Intn(3)
+		if big {
+			nd = 30 + src.Intn(41)
+		}
 		for j := 0; j < nd; j++ {
 			d := specs.Device{Name: fmt.Sprintf("dev%d", j)}
 			d.ContainerEdits.Env = []string{fmt.Sprintf("CDI_SIM=f%d.dev%d", i, j)}
@@ -391,6 +400,7 @@ func c14(r *core.Run) {
 		result  string
 	}
 	var history []injRec
+	var containers []*oci.Spec // OCI specs that received an injection (and stay in use)
 	steps := 2 + src.Intn(7)
 	if r.Tier == "thorough" && src.Bool(1, 3) {
 		steps = 8 + src.Intn(25)
@@ -399,9 +409,12 @@ func c14(r *core.Run) {
 	for s := 0; s < steps; s++ {
 		src.Begin("step")
 		what := ""
-		switch src.Pick(5, 2, 1, 3, 2, 1) {
+		switch src.Pick(5, 2, 1, 3, 2, 1, 2) {
 		case 0: // InjectDevices
 			k := 1 + src.Intn(3)
+			if big && src.Bool(1, 2) {
+				k = 20 + src.Intn(61)
+			}
 			var req []string
 			for i := 0; i < k; i++ {
 				req = append(req, st.names[src.Intn(len(st.names))])
@@ -493,6 +506,7 @@ func c14(r *core.Run) {
 					}
 				}
 				history = append(history, injRec{strings.Join(req, ","), string(inImg), hostGen, string(res)})
+				containers = append(containers, work)
 			}
 		case 1: // Device.ApplyEdits
 			q := st.names[src.Intn(len(st.names))]
@@ -554,6 +568,19 @@ func c14(r *core.Run) {
 				r.Failf("write-back", "written-differs-from-loaded", "%s wrote a document that differs from the one loaded from %s:\n loaded:  %s\n written: %s", what, origPath, st.base["spec:"+origPath], gotImg)
 			}
 			e.admin.Unlink(memfs.AT_FDCWD, tp)
+		case 6: // one more injection into a container spec that already received one
+			if len(containers) == 0 {
+				break
+			}
+			work := containers[src.Intn(len(containers))]
+			var req []string
+			for i, k := 0, 1+src.Intn(2); i < k; i++ {
+				req = append(req, st.names[src.Intn(len(st.names))])
+			}
+			var err error
+			e.do("InjectDevices-more", func() { _, err = e.cache.InjectDevices(work, req...) })
+			what = fmt.Sprintf("InjectDevices(%v) into an OCI spec that already holds injected devices", req)
+			r.Notef("%s -> err %v", what, err)
 		case 5: // Refresh with no change of the Spec directories
 			var err error
 			e.do("Refresh", func() { err = e.cache.Refresh() })
